@@ -435,9 +435,16 @@ def run_events(src, dv):
     glb['GV'] = 5
     glb['TY'] = int
     glb['GW'] = (3, 4)
+    glb['GX'] = glb['GY'] = 0
     exec(compile(src, '<c08>', 'exec'), glb)
+    codes = {}
+    todo = [glb['f'].__code__]
+    while todo:
+        c = todo.pop()
+        codes[c.co_name] = c
+        todo.extend(k for k in c.co_consts if hasattr(k, 'co_code'))
     kind, val, events = pyrt.run_var_events(glb['f'], (1, 2, 3), world)
-    return kind, val, events
+    return kind, val, events, codes
 
 
 def oracle_dynamic(src, node, dvs, quirks=None):
@@ -460,9 +467,14 @@ def oracle_dynamic(src, node, dvs, quirks=None):
             if isinstance(s, ast.FunctionDef) and s is not fn:
                 def_annots.setdefault((fn.name, s.lineno), set()).update(own_annotation_names(s))
     outer_reads = dict((key, outer_iter_names(nodes)) for key, nodes in stmts.items())
+    from malt.pyct import anno as _anno
+    from malt.pyct.static_analysis.annos import NodeAnno as _NodeAnno
+    fn_scopes = dict((n.name, _anno.getanno(n, _NodeAnno.ARGS_AND_BODY_SCOPE, default=None))
+                     for n in ast.walk(node) if isinstance(n, ast.FunctionDef))
+    classified = set()
     for dv in dvs:
         try:
-            kind, val, events = run_events(src, dv)
+            kind, val, events, codes = run_events(src, dv)
         except RecursionError:
             continue
         for e in events:
@@ -471,6 +483,22 @@ def oracle_dynamic(src, node, dvs, quirks=None):
             k, code, line, var = e
             if code not in per_fn:
                 continue            # lambda / generator-expression frames: not statements of their own
+            # how the running function stores a name tells how CPython's compiler classified it: STORE_GLOBAL =
+            # declared global, a store into a free variable's cell = declared nonlocal, any other store = local
+            fsc = fn_scopes.get(code)
+            if fsc is not None and k in ('W', 'GW') and (code, k, var) not in classified \
+                    and var not in comp_targets[code] and var not in handler_names[code]:
+                classified.add((code, k, var))
+                judged += 1
+                is_free = var in codes[code].co_freevars if code in codes else False
+                h_g, h_n = var in simple(fsc.globals), var in simple(fsc.nonlocals)
+                want_g, want_n = k == 'GW', k == 'W' and is_free
+                if (h_g, h_n) != (want_g, want_n):
+                    failures.append(('a name the running function stores as %s is reported as %s' % (
+                        'a global' if want_g else 'a nonlocal (free variable)' if want_n else 'a local',
+                        'declared global' if h_g else 'declared nonlocal' if h_n else 'an ordinary bound local'),
+                        '%s line %d: store of %r; globals(%s) = %s, nonlocals(%s) = %s' % (
+                            code, line, var, code, sorted(simple(fsc.globals)), code, sorted(simple(fsc.nonlocals))), dv))
             if var in handler_names[code]:
                 continue            # exemption of the property
             if var in comp_targets[code] and not (k in ('R', 'GR') and var in outer_reads.get((code, line), ())):
